@@ -236,6 +236,43 @@ def t_prologue(with_warmup):
     return t
 
 
+def t_result_fresh(h):
+    """every call returns freshly built result objects: a value handed to one caller is not the value handed to the next
+    (a shared module-level dict would let one caller's edits show up in another call's result)"""
+    ov = h.ctx.cfg.overrides
+    nop = lambda i, a, k: None
+    for q in ('jesse.config.set_config', 'jesse.config.reset_config', 'jesse.services.validators.validate_routes',
+              'jesse.services.candle.inject_warmup_candles_to_store'):
+        ov[q] = nop
+    ov['jesse.modes.backtest_mode.simulator'] = lambda i, a, k: {'metrics': None}
+    router = Obj(None, {'initiate': Builtin('router.initiate', nop)}, name='router')
+    cstate = Obj(None, {'init_storage': Builtin('init_storage', nop)})
+    store = Obj(None, {'candles': cstate, 'reset': Builtin('store.reset', nop)}, name='store')
+    jc = {'app': {'considering_candles': (('Sandbox', 'BTC-USDT'),), 'trading_mode': 'x'}}
+    h.ctx.cfg.globals['jesse.routes.router'] = lambda i: router
+    h.ctx.cfg.globals['jesse.store.store'] = lambda i: store
+    h.ctx.cfg.globals['jesse.config.config'] = lambda i: jc
+    a = h.ctx.fresh_arr('candles', np=True, cols=6)
+    h.assume(ops.compare('>=', a.n, 2))
+    h.assume(ops.equal(ops.arith('-', a.fn(1).e[0], a.fn(0).e[0]), 60000))
+    candles = {'Sandbox-BTC-USDT': {'exchange': 'Sandbox', 'symbol': 'BTC-USDT', 'candles': a}}
+    cfg = {'starting_balance': h.real('balance', 0), 'fee': h.real('fee', 0), 'type': 'futures', 'futures_leverage': h.int('lev', 1),
+           'futures_leverage_mode': 'cross', 'exchange': 'Sandbox', 'warm_up_candles': h.int('warm', 0)}
+    routes = [{'exchange': 'Sandbox', 'strategy': 'S', 'symbol': 'BTC-USDT', 'timeframe': '5m'}]
+    outs = []
+    for _ in range(2):
+        out = h.outcome('jesse.research.backtest._isolated_backtest', cfg, routes, [], candles, None, True, None)
+        h.prove(out.ok and isinstance(out.value, dict), 'result.no-exception', {'raised': out.exc})
+        if not (out.ok and isinstance(out.value, dict)):
+            return
+        outs.append(out.value)
+    r1, r2 = outs
+    h.prove(r1 is not r2 and r1.get('metrics') is not r2.get('metrics') and isinstance(r1.get('metrics'), dict),
+            'result.each-call-returns-fresh-result-objects')
+    h.prove(r1.get('metrics') == {'total': 0, 'win_rate': 0, 'net_profit_percentage': 0} and r1.get('metrics') == r2.get('metrics'),
+            'result.equal-calls-return-equal-values')
+
+
 def t_drivers(h):
     """API.market_order: silently returns None for an exchange that has no driver; the table must cover the session's exchanges"""
     api_cls = h.repo.find('jesse.services.api.API')
@@ -267,5 +304,6 @@ def tasks(tier):
           Task('store-reset', t_store_reset, extra=dict(x), overrides=dict(ov)),
           Task('prologue.warmup', t_prologue(True), extra=dict(x), overrides=dict(ov)),
           Task('prologue.nowarmup', t_prologue(False), extra=dict(x), overrides=dict(ov)),
-          Task('drivers', t_drivers, extra=dict(x), overrides=dict(ov))]
+          Task('drivers', t_drivers, extra=dict(x), overrides=dict(ov)),
+          Task('result-fresh', t_result_fresh, extra=dict(x), overrides=dict(ov))]
     return ts
